@@ -41,13 +41,13 @@ pub fn sel() -> BoxedStrategy<u16> {
     prop_oneof![2 => Just(0u16), 2 => Just(65535u16), 3 => any::<u16>()].boxed()
 }
 
-fn ack(d: BoxedStrategy<Deco>) -> BoxedStrategy<Ev> {
+pub fn ack(d: BoxedStrategy<Deco>) -> BoxedStrategy<Ev> {
     (sel(), d)
         .prop_map(|(sel, deco)| Ev::In(Inbound::Ack { sel, deco }))
         .boxed()
 }
 
-fn start(kinds: Vec<(u32, OpKind)>) -> BoxedStrategy<Ev> {
+pub fn start(kinds: Vec<(u32, OpKind)>) -> BoxedStrategy<Ev> {
     let total: u32 = kinds.iter().map(|k| k.0).sum();
     (0..total, 0u8..4, 0u8..4)
         .prop_map(move |(mut x, h, n)| {
@@ -620,7 +620,7 @@ impl Property for C09 {
 
 pub struct C10;
 
-fn rm_small() -> BoxedStrategy<Option<u16>> {
+pub fn rm_small() -> BoxedStrategy<Option<u16>> {
     prop_oneof![
         8 => prop::sample::select(vec![1u16, 2, 3, 5, 16]).prop_map(Some),
         1 => Just(Some(65535u16)),
